@@ -165,6 +165,21 @@ func checkC08(c *Check) {
 	checkPipeCollector(c)
 	// the parameters acted upon are those of this request (no field inherited from the previous message)
 	checkFreshDecode(c, "5/request-is-fresh")
+
+	// the limit signals map to their verdicts in every classifier, the container's included (tables of C09.1)
+	importObs(c, "C09", "C09.1/classifier-table", "6/limit-signals-classified", func(o Obligation) bool {
+		for _, s := range []string{":signal=9", ":signal=24", ":signal=25"} {
+			if strings.HasSuffix(o.Key, s) {
+				return true
+			}
+		}
+		return false
+	})
+	c.Expect("6/limit-signals-classified", 9)
+
+	// programs in the container keep the default disposition of the limit signals
+	checkIgnoredSignals(c, "7/limit-signals-not-ignored", []string{"SIGXCPU", "SIGXFSZ"}, nil)
+	c.Expect("7/limit-signals-not-ignored", 1)
 }
 
 func checkGetRlimit(c *Check, fn *ssa.Function) {
